@@ -1,2 +1,5 @@
-import Tumfl.Props.C11
-#print axioms Tumfl.Props.C11_roundtrip
+import Tumfl.Props.C16
+#print axioms Tumfl.Props.C16_positions
+#print axioms Tumfl.Props.C16_reference_position
+#print axioms Tumfl.Props.C16_eof
+#print axioms Tumfl.Props.C16_advance
